@@ -502,6 +502,58 @@ carquet_status_t carquet_offset_index_serialize(
  */
 
 /**
+ * Order of two stored values of the column's physical type.
+ * Returns -1, 0 or 1; 2 when the values are unordered (a NaN is involved).
+ */
+static int compare_page_values(carquet_physical_type_t type,
+                               const void* a, int32_t a_len,
+                               const void* b, int32_t b_len) {
+    switch (type) {
+        case CARQUET_PHYSICAL_INT32:
+            if (a_len >= 4 && b_len >= 4) {
+                int32_t x, y;
+                memcpy(&x, a, sizeof(x));
+                memcpy(&y, b, sizeof(y));
+                return (x > y) - (x < y);
+            }
+            break;
+        case CARQUET_PHYSICAL_INT64:
+            if (a_len >= 8 && b_len >= 8) {
+                int64_t x, y;
+                memcpy(&x, a, sizeof(x));
+                memcpy(&y, b, sizeof(y));
+                return (x > y) - (x < y);
+            }
+            break;
+        case CARQUET_PHYSICAL_FLOAT:
+            if (a_len >= 4 && b_len >= 4) {
+                float x, y;
+                memcpy(&x, a, sizeof(x));
+                memcpy(&y, b, sizeof(y));
+                if (x != x || y != y) return 2;
+                return (x > y) - (x < y);
+            }
+            break;
+        case CARQUET_PHYSICAL_DOUBLE:
+            if (a_len >= 8 && b_len >= 8) {
+                double x, y;
+                memcpy(&x, a, sizeof(x));
+                memcpy(&y, b, sizeof(y));
+                if (x != x || y != y) return 2;
+                return (x > y) - (x < y);
+            }
+            break;
+        default:
+            break;
+    }
+
+    int32_t n = a_len < b_len ? a_len : b_len;
+    int cmp = n > 0 ? memcmp(a, b, (size_t)n) : 0;
+    if (cmp != 0) return cmp < 0 ? -1 : 1;
+    return (a_len > b_len) - (a_len < b_len);
+}
+
+/**
  * Check if a page might contain values in the given range.
  *
  * @param builder Column index builder
@@ -534,10 +586,10 @@ carquet_status_t carquet_column_index_page_might_match(
 
     /* If query max < page min, no match */
     if (max_value && builder->min_values[page_idx]) {
-        int cmp = memcmp(max_value, builder->min_values[page_idx],
-                         value_len < builder->min_value_lens[page_idx] ?
-                         value_len : builder->min_value_lens[page_idx]);
-        if (cmp < 0 || (cmp == 0 && value_len < builder->min_value_lens[page_idx])) {
+        int cmp = compare_page_values(builder->type, max_value, value_len,
+                                      builder->min_values[page_idx],
+                                      builder->min_value_lens[page_idx]);
+        if (cmp == -1) {
             *might_match = false;
             return CARQUET_OK;
         }
@@ -545,10 +597,10 @@ carquet_status_t carquet_column_index_page_might_match(
 
     /* If query min > page max, no match */
     if (min_value && builder->max_values[page_idx]) {
-        int cmp = memcmp(min_value, builder->max_values[page_idx],
-                         value_len < builder->max_value_lens[page_idx] ?
-                         value_len : builder->max_value_lens[page_idx]);
-        if (cmp > 0 || (cmp == 0 && value_len > builder->max_value_lens[page_idx])) {
+        int cmp = compare_page_values(builder->type, min_value, value_len,
+                                      builder->max_values[page_idx],
+                                      builder->max_value_lens[page_idx]);
+        if (cmp == 1) {
             *might_match = false;
             return CARQUET_OK;
         }
